@@ -637,6 +637,21 @@ class List(list, base.Symbolic, pg_typing.CustomTyping):
       result.use_value_spec(self._value_spec)
     return result
 
+  def __iadd__(self, other: Iterable[Any]) -> 'List':
+    """In-place concatenation with the same checks as `extend`."""
+    self.extend(other)
+    return self
+
+  def __imul__(self, n: int) -> 'List':
+    """In-place repetition with the same checks as `extend` and `clear`."""
+    if n <= 0:
+      self.clear()
+    else:
+      items = list(self.sym_values())
+      for _ in range(n - 1):
+        self.extend(items)
+    return self
+
   def __rmul__(self, n: int) -> 'List':
     """Returns a repeated Lit of self."""
     return self.__mul__(n)
